@@ -27,7 +27,10 @@
 (***************************************************************************)
 EXTENDS Integers, Sequences, FiniteSets, TLC, Json, LockObs
 
-CONSTANTS N, MaxTime, MaxSkew, Budget, Variant, Faults, MaxToggle, Removal, Remotes, MaxWaits, HistMax, Emit
+CONSTANTS N, MaxTime, MaxSkew, Budget, Variant, Faults, MaxToggle, Removal, Remotes, MaxWaits, HistMax, Emit,
+          MaxAtt,    \* attempts of newLock per Lock() call that the model follows (>= 2)
+          Crashes,   \* BOOLEAN: processes may die at any point
+          StartBy    \* processes start (in order 1, 2, ...) at times <= StartBy
 
 VARIABLES now, files, pr, skewU, toggles, waits, hist, emitted
 vars == <<now, files, pr, skewU, toggles, waits, hist, emitted>>
@@ -81,7 +84,8 @@ Ret(r) == IF ~r.ctx THEN "unl" ELSE IF r.forcing THEN "f1" ELSE "hold"
 (* acquiring: check - create - wait - check again *)
 
 Start(p, x) ==
-  /\ pr[p].pc = "idle"
+  /\ pr[p].pc = "idle" /\ now <= StartBy
+  /\ p > 1 => pr[p - 1].pc # "idle"      \* symmetry breaking: processes are interchangeable
   /\ Move(p, [pr[p] EXCEPT !.pc = "list", !.phase = 1, !.x = x, !.ts = Local(p), !.tries = 0, !.att = 1, !.checked = {}],
           H("start", p, x, ""))
   /\ UNCHANGED files
@@ -138,10 +142,10 @@ Again(p) ==
   LET r == pr[p] IN
   /\ r.pc = "again"
   /\ UNCHANGED files
-  /\ \/ /\ r.att < 3
+  /\ \/ /\ r.att < MaxAtt
         /\ pr' = [pr EXCEPT ![p] = [r EXCEPT !.pc = "list", !.phase = 1, !.ts = Local(p), !.tries = 0, !.att = @ + 1,
                                              !.checked = {}, !.since = now]]
-     \/ /\ r.att >= 2
+     \/ /\ (r.att >= 2 \/ r.att >= MaxAtt)
         /\ pr' = [pr EXCEPT ![p] = [r EXCEPT !.pc = "failed"]]
   /\ UNCHANGED <<now, skewU, toggles, waits, hist, emitted>>
 
@@ -234,6 +238,7 @@ Unlock(p) ==
           H("unlock", p, FALSE, ""))
 
 Crash(p) ==
+  /\ Crashes
   /\ pr[p].pc \notin Terminal \cup {"idle"}
   /\ UNCHANGED files
   /\ Move(p, [pr[p] EXCEPT !.pc = "dead", !.ctx = FALSE], H("crash", p, FALSE, ""))
